@@ -13,7 +13,10 @@ RULE = ('generated note extents (0..40 notes; name sizes 0..21 and descriptor si
         'uid/gid machines) and NT_FILE with 0-20 mappings) placed in a real image and read through a '
         'SHT_NOTE section and a PT_NOTE segment over the same bytes, followed by unrelated bytes or '
         'alignment slack, with the shared stream repositioned at every yield; stab sections with '
-        '0..500 records. distinct = (class, order, core?, per-note feature tuple incl. residues).')
+        '0..500 records; (shared) the layout linkers write - two or three adjacent note sections under '
+        'one PT_NOTE segment, a second segment over the last section alone - read through one file '
+        'object in a random order of views, each view several times, partly consumed walks included. '
+        'distinct = (class, order, core?, per-note feature tuple incl. residues).')
 ASSUMPTIONS = [
     'type names are expected from the table selected by e_type (core vs other) whatever the owner; '
     'descriptor decoding is expected only for owner GNU (non-core types) and owner CORE (core types)',
@@ -21,7 +24,7 @@ ASSUMPTIONS = [
     'alignment slack after the last note is < 12 bytes (a longer run of zeros is indistinguishable '
     'from a header-only note)',
 ]
-KINDS = {'notes': (6000, 200000, 0), 'stabs': (200, 4000, 0)}
+KINDS = {'notes': (6000, 200000, 0), 'stabs': (200, 4000, 0), 'shared': (600, 12000, 0)}
 FLOOR = {'quick': 5000, 'thorough': 150000}
 REACH = ['elftools.elf.notes:iter_notes', 'elftools.elf.sections:StabSection.iter_stabs']
 
@@ -173,3 +176,81 @@ def run_case(kind, idx, rng, sh):
     sh.sig(('layout', sigbase, len(exp) > 0, exp[-1]['n_size'] == 12 if exp else None))
     sh.sample({'class': cls, 'little_endian': le, 'core': core, 'notes': len(exp),
                'first': [(e['n_name'], e['n_type'], len(e['n_descdata'])) for e in exp[:4]]}, kind='notes')
+
+
+# ---- several views over overlapping extents of one file object (a PT_NOTE segment covering adjacent note sections)
+_base_run_case = run_case
+
+
+def run_case(kind, idx, rng, sh):
+    if kind != 'shared':
+        return _base_run_case(kind, idx, rng, sh)
+    from elftools.elf.elffile import ELFFile
+    cls = rng.choice([32, 64])
+    le = rng.random() < 0.5
+    machine = rng.choice(MACHINES)
+    nsec = rng.choice([2, 2, 3])
+    parts = []
+    for k in range(nsec):
+        # every part ends on a 4-byte boundary, so that the sections are adjacent and the segment is one run of notes
+        body, exp = notesgen.gen_notes(rng, cls, le, False, machine, count=rng.choice([1, 1, 2, 3]), allow_header_only_last=False)
+        if len(body) % 4 or any('props' in e for e in exp):
+            body, exp = notesgen.gen_notes(rng, cls, le, False, machine, count=0)
+        parts.append((body, exp))
+    if not any(b for b, _ in parts):
+        sh.skip('no notes generated')
+        return
+    junk = b'\xa5' * rng.choice([0, 16])
+
+    def mk_secs():
+        return [elfgen.Sec('.text', 1, data=b'\xcc' * 8, align=4)] + \
+            [elfgen.Sec('.note.p%d' % k, 7, flags=2, data=body, align=4 if k == 0 else 1) for k, (body, exp) in enumerate(parts)] + \
+            [elfgen.Sec('.junk', 1, data=junk)]
+    secs = mk_secs()
+    img, info = elfgen.build(cls=cls, le=le, machine=machine, etype=rng.choice([2, 3]), sections=secs,
+                             segments=[elfgen.Seg(type=4, offset=0, filesz=0, align=4), elfgen.Seg(type=4, offset=0, filesz=0, align=4)])
+    offs = [info['secs'][info['byname']['.note.p%d' % k]].offset for k in range(nsec)]
+    if any(offs[k] + len(parts[k][0]) != offs[k + 1] for k in range(nsec - 1)):
+        raise RuntimeError('generated note sections are not adjacent')
+    total = sum(len(b) for b, _ in parts)
+    segs = [elfgen.Seg(type=4, offset=offs[0], vaddr=offs[0], filesz=total, align=4),
+            elfgen.Seg(type=4, offset=offs[-1], vaddr=offs[-1], filesz=len(parts[-1][0]), align=4)]
+    img2, info2 = elfgen.build(cls=cls, le=le, machine=machine, etype=2, sections=mk_secs(), segments=segs)
+    if len(img2) != len(img) or [info2['secs'][info2['byname']['.note.p%d' % k]].offset for k in range(nsec)] != offs:
+        raise RuntimeError('second pass moved the sections')
+    st = TracedBytesIO(img2)
+    ef = ELFFile(st)
+    want = {}
+    for k, (body, exp) in enumerate(parts):
+        want['section %d' % k] = [expected(e, offs[k], False) for e in exp]
+    want['segment all'] = [n for k in range(nsec) for n in want['section %d' % k]]
+    want['segment last'] = list(want['section %d' % (nsec - 1)])
+    objs = {'segment all': lambda: ef.get_segment(0), 'segment last': lambda: ef.get_segment(1)}
+    for k in range(nsec):
+        objs['section %d' % k] = (lambda k=k: ef.get_section_by_name('.note.p%d' % k))
+    held = {}
+    order = [rng.choice(sorted(objs)) for _ in range(rng.choice([4, 6, 10]))] + sorted(objs)
+    rng.shuffle(order)
+    for step, name in enumerate(order):
+        obj = held[name] if name in held and rng.random() < 0.5 else objs[name]()
+        held[name] = obj
+        poison([st], rng)
+        it = PoisonedIter(obj.iter_notes(), [st], rng, sh.counters)
+        if rng.random() < 0.25:
+            first = next(iter(it), None)            # a walk given up after its first note
+            got = [digest(first)] if first is not None else []
+            w = want[name][:1]
+            how = 'abandoned walk'
+        else:
+            got = [digest(n) for n in it]
+            w = want[name]
+            how = 'full walk'
+        if got != w:
+            sh.violation('C14:shared extents: %s of the %s differs from the encoded notes (after %s)' % (
+                how, name.split()[0] + (' over all sections' if name == 'segment all' else ' over the last section' if name == 'segment last' else ''),
+                'no other view' if step == 0 else 'other views of the same file object'),
+                order=order[:step + 1], got=got[:3], want=w[:3], cls=cls, le=le)
+            return
+    sh.held(('shared', cls, le, nsec, len(order)), n=len(order))
+    sh.sig(('shared-order',) + tuple(o.split()[0] for o in order[:3]))
+    sh.sample({'class': cls, 'sections': nsec, 'notes_per_section': [len(e) for _, e in parts], 'views_walked': len(order)}, kind='shared')
